@@ -228,6 +228,9 @@ def kind_join(a, b):
 
 def pi_const():
     c = cur()
+    if getattr(c, "tol", None) is not None:
+        import math
+        return F(False, rv(math.pi))
     p = c.memo.get("pi")
     if p is None:
         p = z3.Real("pi")
@@ -401,9 +404,34 @@ def imod(a, b):
     return c.memo[("idiv", zi(a).sexpr(), zi(b).sexpr())][1]
 
 
+def _numeral(x):
+    x = z3.simplify(x)
+    if z3.is_rational_value(x):
+        return float(x.numerator_as_long()) / float(x.denominator_as_long())
+    return None
+
+
+def _numeric(fn, x):
+    """replay mode: evaluate a transcendental function numerically on a numeral"""
+    if getattr(cur(), "tol", None) is None:
+        return None
+    v = _numeral(x)
+    if v is None:
+        return None
+    try:
+        r = fn(v)
+    except (ValueError, ZeroDivisionError):
+        return None
+    return rv(float(r))
+
+
 def sqrt_real(x):
     """sqrt of a z3 real expression as an uninterpreted function with its defining facts."""
+    import math
     c = cur()
+    num = _numeric(math.sqrt, x)
+    if num is not None:
+        return num
     fn = c.memo.get("sqrt_fn")
     if fn is None:
         fn = z3.Function("sqrt", z3.RealSort(), z3.RealSort())
@@ -446,12 +474,20 @@ def log_(a):
         li = ufun("clog_im", R, R, R)
         return C(Or_(a.nan, And_(a.re == 0, a.im == 0)), lr(a.re, a.im), li(a.re, a.im))
     a = toF(a)
+    import math
+    num = _numeric(math.log, a.v)
+    if num is not None:
+        return F(a.nan, num)
     ln = ufun("ln", R, R)
     return F(Or_(a.nan, a.v <= 0), ln(a.v))
 
 
 def log10_(a):
     a = toF(a)
+    import math
+    num = _numeric(math.log10, a.v)
+    if num is not None:
+        return F(a.nan, num)
     lg = ufun("log10", R, R)
     return F(Or_(a.nan, a.v <= 0), lg(a.v))
 
@@ -463,12 +499,20 @@ def exp_(a):
         ei = ufun("cexp_im", R, R, R)
         return C(a.nan, er(a.re, a.im), ei(a.re, a.im))
     a = toF(a)
+    import math
+    num = _numeric(math.exp, a.v)
+    if num is not None:
+        return F(a.nan, num)
     ex = ufun("exp", R, R)
     return F(a.nan, ex(a.v))
 
 
 def arccos_(a):
     a = toF(a)
+    import math
+    num = _numeric(math.acos, a.v)
+    if num is not None:
+        return F(a.nan, num)
     ac = ufun("arccos", R, R)
     c = cur()
     r = ac(a.v)
@@ -594,6 +638,16 @@ def same(a, b):
     k, a, b = coerce2(a, b)
     if k == "int":
         return eq(a, b)
+    tol = getattr(cur(), "tol", None)
+    if tol is not None:
+        def close(x, y):
+            d = z3.If(x - y >= 0, x - y, y - x)
+            ax = z3.If(x >= 0, x, -x)
+            ay = z3.If(y >= 0, y, -y)
+            return d <= tol * (1 + ax + ay)
+        if k == "float":
+            return And_(Iff_(a.nan, b.nan), Implies_(Not_(a.nan), close(a.v, b.v)))
+        return And_(Iff_(a.nan, b.nan), Implies_(Not_(a.nan), And_(close(a.re, b.re), close(a.im, b.im))))
     if k == "float":
         return And_(Iff_(a.nan, b.nan), Implies_(Not_(a.nan), a.v == b.v))
     return And_(Iff_(a.nan, b.nan), Implies_(Not_(a.nan), And_(a.re == b.re, a.im == b.im)))
